@@ -6,6 +6,7 @@ import (
 	"sort"
 	"strconv"
 	"strings"
+	"time"
 
 	"github.com/andydunstall/piko/pkg/gossip"
 	"github.com/andydunstall/piko/pkg/log"
@@ -164,6 +165,7 @@ type mgrInst struct {
 	st    *mgrStack
 	in    []bool // currently registered (connected) upstreams, by index
 	order map[string][]int
+	stuck bool
 }
 
 func (s *mgrSys) New() mc.Instance[mgrEvent] {
@@ -212,17 +214,50 @@ func (in *mgrInst) step(e mgrEvent, check bool) (vs []mc.Violation) {
 			vs = append(vs, mc.Violation{Property: prop, Clause: "panic", Sig: "panic", Msg: fmt.Sprintf("%s panicked: %v", e, r)})
 		}
 	}()
+	if in.stuck {
+		// an earlier operation of this history never returned (it is reported
+		// where it happened); the instance cannot be driven any further
+		return nil
+	}
+	// every operation completes: run it under a watchdog so that a lock left
+	// held by an earlier call shows as a violation instead of hanging the search
+	var su upstream.Upstream
+	var sok bool
+	done := make(chan any, 1)
+	go func() {
+		defer func() { done <- recover() }()
+		switch e.Kind {
+		case "add":
+			in.st.mgr.AddConn(in.st.ups[e.U])
+		case "remove":
+			in.st.mgr.RemoveConn(in.st.ups[e.U])
+		case "select":
+			su, sok = in.st.mgr.Select(e.E, e.Allow)
+		}
+		// a lock left held by this very call would block the next one: take
+		// and release it once more inside the watchdog
+		_ = in.st.mgr.Endpoints()
+	}()
+	select {
+	case r := <-done:
+		if r != nil {
+			panic(r)
+		}
+	case <-time.After(10 * time.Second):
+		in.stuck = true
+		if check {
+			bad("operation-never-returned", "%s did not return within 10s (the operations before it in this history all returned)", e)
+		}
+		return vs
+	}
 	switch e.Kind {
 	case "add":
-		in.st.mgr.AddConn(in.st.ups[e.U])
 		in.in[e.U] = true
 	case "remove":
-		in.st.mgr.RemoveConn(in.st.ups[e.U])
 		in.in[e.U] = false
 	case "select":
-		u, ok := in.st.mgr.Select(e.E, e.Allow)
 		if check && prop == "C15" {
-			in.checkSelect(e, u, ok, bad)
+			in.checkSelect(e, su, sok, bad)
 		}
 	}
 	if check && prop == "C05" {
@@ -291,8 +326,17 @@ func (in *mgrInst) checkSelect(e mgrEvent, u upstream.Upstream, ok bool, bad fun
 }
 
 func (in *mgrInst) Canon() string {
-	pub, _ := in.st.published()
-	return in.st.balancers() + "|" + countsStr(in.st.cs.LocalNode().Endpoints) + "|" + countsStr(pub) + "|" + fmt.Sprint(in.in)
+	// the published gossip entries including tombstones (without versions):
+	// "never advertised" and "advertised, then withdrawn" are different states
+	// (they react differently to the next registration)
+	var ents []string
+	for _, e := range in.st.gs.LocalNode().Entries {
+		if strings.HasPrefix(e.Key, "endpoint:") {
+			ents = append(ents, fmt.Sprintf("%s=%q/%v", e.Key, e.Value, e.Deleted))
+		}
+	}
+	sort.Strings(ents)
+	return in.st.balancers() + "|" + countsStr(in.st.cs.LocalNode().Endpoints) + "|" + strings.Join(ents, ",") + "|" + fmt.Sprint(in.in)
 }
 
 // Final (C15): from this state, with the membership now stable, 2n further
